@@ -26,7 +26,7 @@ CASE_TIMEOUT = 12      # seconds; a normal case takes well under one second
 MEM_LIMIT_GB = 6
 ASSUMPTIONS = ['a usage error is SystemExit (2) raised by argparse', 'report completeness: known block structure, no unparsed lines, no nan/inf text']
 
-HOSTILE = ['0', '-1', '1', '1e300', '-1e300', '1e-300', 'nan', 'inf', '-inf', '', 'abc', '1e9', '-0.0', '0.5', '2', '1e-9', '99999999999', '-7']
+HOSTILE = ['0', '-1', '1', '1e300', '-1e300', '1e-300', '1e155', '1e-155', '3e153', 'nan', 'inf', '-inf', '', 'abc', '1e9', '-0.0', '0.5', '2', '1e-9', '99999999999', '-7']
 TAGS    = ['0', '-1', '99', '1', '2', '3', 'x', '']
 
 # ---- enumerated stratum: every field of every option form x every hostile value, one at a time,
@@ -108,6 +108,52 @@ def enum_cases ():
     return out
 # end def enum_cases
 
+# ---- magnitude ladder: one scalable field swept over the decades where squares, cubes and fourth
+# powers of a double leave the finite range (10^+-308, +-154, +-103, +-77), on runs that print every table
+LADDER_BASE = [['-f', '7.1'], ['-w', '10,0,0,0,0,0,1,0.001'], ['--excitation-pulse', '5'], ['--excitation-voltage', '1']
+              , ['--near-field', '0.05,0,0.5,1,1,1,1,1,2'], ['--option', 'near-field'], ['--option', 'far-field']
+              , ['--option', 'far-field-absolute'], ['--ff-distance', '100'], ['--theta', '10,40,3'], ['--phi', '0,90,2']]
+LADDER_FIELDS = \
+    [ ('--excitation-voltage', None, '%s'), ('--excitation-voltage', None, '%sj'), ('--excitation-voltage', None, '1+%sj')
+    , ('--nf-power', None, '%s'), ('--ff-power', None, '%s'), ('--ff-distance', None, '%s'), ('-f', None, '%s')
+    , ('--geo-scale', None, '%s'), ('-w', 7, '%s'), ('-w', 6, '%s'), ('--near-field', 0, '%s'), ('--near-field', 2, '%s')
+    , ('--skin-effect-conductivity', None, '%s'), ('-l', None, '%s'), ('-l', None, '1+%sj'), ('--insulation-load', 0, '%s')
+    , ('--insulation-load', 1, '%s'), ('--medium', 0, '%s'), ('--medium', 1, '%s')
+    ]
+LADDER_EXTRA = {'-l': [['--attach-load', '1,all']], '--medium': [], '--insulation-load': []}
+LADDER_DEFAULT = {'--insulation-load': '0.002,2.5', '--medium': '13,0.005,0', '-l': '50'}
+
+def ladder_exponents (tier):
+    if tier == 'quick':
+        ks = list (range (74, 81)) + list (range (100, 107)) + list (range (150, 159)) + list (range (300, 311))
+    else:
+        ks = list (range (1, 312))
+    return [k for k in ks] + [-k for k in ks]
+
+def ladder_cases (tier):
+    return [dict (kind = 'ladder', fi = fi, k = k, m = m) for fi in range (len (LADDER_FIELDS)) for k in ladder_exponents (tier)
+            for m in (('1', '3') if tier == 'thorough' else ('1',))]
+
+def make_ladder (c):
+    opt, j, fmt = LADDER_FIELDS [c ['fi']]
+    val  = fmt % ('%se%d' % (c ['m'], c ['k']))
+    base = [list (g) for g in LADDER_BASE]
+    hit  = [g for g in base if g [0] == opt]
+    if hit:
+        g = hit [0]
+    else:
+        g = [opt, LADDER_DEFAULT.get (opt, '1')]
+        base.append (g)
+        base.extend ([list (x) for x in LADDER_EXTRA.get (opt, [])])
+    if j is None:
+        g [1] = val
+    else:
+        parts = g [1].split (',')
+        parts [j] = val
+        g [1] = ','.join (parts)
+    return dict (groups = base, mutated = ['%s[%s]=1e%s' % (opt, j, ('+' if c ['k'] > 0 else '-') + str (abs (c ['k']) // 10 * 10))], kind = 'ladder')
+# end def make_ladder
+
 def make_enum (c):
     groups = [list (g) for g in c ['groups']]
     parts  = groups [c ['gi']][1].split (',')
@@ -156,7 +202,7 @@ FIXED = \
 
 def plan (tier, seed):
     n = 3000 if tier == 'quick' else 100000
-    return [dict (kind = 'fixed', k = k) for k in range (len (FIXED))] + enum_cases () + [dict (i = i, seed = seed) for i in range (n)]
+    return [dict (kind = 'fixed', k = k) for k in range (len (FIXED))] + enum_cases () + ladder_cases (tier) + [dict (i = i, seed = seed) for i in range (n)]
 # end def plan
 
 def base (rng):
@@ -375,6 +421,8 @@ def soup (rng):
 def make (c):
     if c.get ('kind') == 'enum':
         return make_enum (c)
+    if c.get ('kind') == 'ladder':
+        return make_ladder (c)
     if c.get ('kind') == 'fixed':
         return dict (groups = [list (g) for g in FIXED [c ['k']]], mutated = ['fixed%d' % c ['k']], kind = 'fixed')
     rng = np.random.default_rng ([c ['seed'], 20, c ['i']])
@@ -445,6 +493,9 @@ def classify (r):
         blk = best [0]
         return 'nan-report', 'nan-in-report:' + blk, 'report contains %r (block %s)' % (m.group (0), blk)
     rep = report.parse (out)
+    # a table row whose (finite) numbers are wider than their columns runs the columns together: the
+    # property asks for finite numbers, not for a column layout, so purely numeric rows are accepted
+    rep ['leftovers'] = [l for l in rep ['leftovers'] if not re.fullmatch (r'[-+0-9.,eEjJ() \t]+', l)]
     if rep ['leftovers']:
         return 'malformed', 'report-unparsed-lines', 'unparsed report lines: %r' % rep ['leftovers'][:2]
     if not rep ['source_data'] or not rep ['currents'] or not rep ['geometry']:
